@@ -434,6 +434,20 @@ ASTNode *DeclarationParser::parseFunctionDeclarationAfterName(
                 param->type_info = parser_->getTypeInfoFromString(param_type);
             }
 
+            // 組み込み型の値パラメータ `const T x`: parseType() が返す型名は
+            // "const T" なので、上の解決はどれも一致せず TYPE_UNKNOWN の
+            // ままになる。そのままでは引数を束縛するときに T としての
+            // 範囲チェック（tiny/short/int/char ...）が行われないので、
+            // parseType() が求めた基本型（typedef 解決済み）を使う。
+            // struct / enum / 配列 / 参照の const パラメータは従来どおり
+            if (param->type_info == TYPE_UNKNOWN && param_parsed.is_const &&
+                !param_parsed.is_array && !param_parsed.is_reference &&
+                !param_parsed.is_rvalue_reference &&
+                param_parsed.base_type_info >= TYPE_TINY &&
+                param_parsed.base_type_info <= TYPE_QUAD) {
+                param->type_info = param_parsed.base_type_info;
+            }
+
             if (param_parsed.is_function_type) {
                 parser_->applyFunctionPointerTypeInfo(param, param_parsed);
             }
